@@ -51,7 +51,9 @@ pub fn method_facts(m: &Value, itfs: &[String]) -> Value {
 	calls.sort_by_key(|c| c.to_string());
 	for c in calls {
 		let owner = c[0].as_str().unwrap_or("");
-		if itfs.iter().any(|i| i == owner) || owner.starts_with("java/util/List") {
+		if c[1].as_str() == Some("<init>") {
+			insns.push(json!({"op": "invokespecial", "owner": owner, "name": c[1], "desc": c[2], "itf": false}));
+		} else if itfs.iter().any(|i| i == owner) || owner.starts_with("java/util/List") {
 			insns.push(json!({"op": "invokeinterface", "owner": owner, "name": c[1], "desc": c[2]}));
 		} else {
 			insns.push(json!({"op": "invokevirtual", "owner": owner, "name": c[1], "desc": c[2], "itf": false}));
